@@ -175,6 +175,13 @@ func (h *vC05Harness) run(w *vC05Writer) {
 	}
 }
 
+// advance lets writer w take its next step: start it, or release it from the gate; a writer that already returned stays.
+func (h *vC05Harness) advance(w *vC05Writer) {
+	if w.st == "begun" || w.st == "computed" || w.st == "failed" {
+		h.run(w)
+	}
+}
+
 func (h *vC05Harness) exec(w *vC05Writer) {
 	switch w.kind {
 	case "put":
@@ -486,13 +493,24 @@ func (h *vC05Harness) replay(tw *vTraceWriter, bi int, b vC05Beh) (aborted bool)
 	for si, st := range b.Steps {
 		wi := vInt(st.W)
 		if st.A == "Quiesce" {
+			// quiescence is real: a writer that is still in flight (the real code took more steps than the behaviour
+			// scheduled) is run to completion first, one at a time in id order
+			forced := 0
 			for _, w := range h.ws[:nw] {
+				for i := 0; i < 8 && w.st != "done"; i++ {
+					forced++
+					h.advance(w)
+					if w.st == "committed" || w.st == "errored" {
+						h.registerReturn(w)
+						w.st, w.delivered = "done", true
+					}
+				}
 				if w.st != "done" {
-					return abort(fmt.Sprintf("step %d Quiesce: writer %d is %s", si, w.id, w.st))
+					return abort(fmt.Sprintf("step %d Quiesce: writer %d is still %s", si, w.id, w.st))
 				}
 			}
 			f := h.feed()
-			tw.Emit(h.snapshot(vObj{"a": "Quiesce", "w": 0, "feed": f}))
+			tw.Emit(h.snapshot(vObj{"a": "Quiesce", "w": 0, "feed": f, "forced": forced}))
 			continue
 		}
 		if wi < 1 || wi > vC05MaxWriters {
@@ -529,27 +547,15 @@ func (h *vC05Harness) replay(tw *vTraceWriter, bi int, b vC05Beh) (aborted bool)
 				w.pushHist = append([]string{nr}, anc...)
 				h.revID[nr], h.revStr[10+w.id] = 10+w.id, nr
 			}
-		case "RC":
-			if w.st != "begun" {
-				return abort(fmt.Sprintf("step %d RC(%d): writer is %s", si, wi, w.st))
-			}
-			h.run(w)
-		case "Cas":
-			if w.st != "computed" {
-				return abort(fmt.Sprintf("step %d Cas(%d): writer is %s", si, wi, w.st))
-			}
-			h.run(w)
+		case "RC", "Cas":
+			// the scheduler never decides by expectation: whatever the behaviour says, the step means "writer w runs until it
+			// parks or returns"; if the real code left the spec's path (e.g. it is parked where the spec expected it to
+			// have been refused) the recorded state shows it and pass C rejects the line
+			h.advance(w)
 		case "Ack":
-			switch w.st {
-			case "failed":
-				h.run(w) // releases the gate: the error return path runs
-				if w.st == "errored" || w.st == "committed" {
-					w.st, w.delivered = "done", true
-				}
-			case "committed", "errored":
+			h.advance(w)
+			if w.st == "committed" || w.st == "errored" {
 				w.st, w.delivered = "done", true
-			default:
-				return abort(fmt.Sprintf("step %d Ack(%d): writer is %s", si, wi, w.st))
 			}
 		default:
 			t.Fatalf("VERIF-FATAL C05: unknown action %q", st.A)
